@@ -40,12 +40,13 @@ def handleCR (st : St) (n : Nat) (toks : List String) : Result := Id.run do
   let mut st := st.bump s!"crash.{kind}"
   let mut outs : List String := []
   -- model: the script the model expects for an accepting update, and where the kill struck
-  let mscript := Sql.acceptScript
+  -- the prediction uses the events the implementation actually issued (a rewrite may query differently);
+  -- what matters is where COMMIT lies relative to the kill, and that an accepting update has exactly one
   let mut ok := true
-  if evs != mscript then
+  if (evs.filter (· == .commit)).length != 1 || !evs.contains .begin then
     ok := false
-    outs := outs ++ [s!"DIVERGE {n} CR field=script model={mscript.length}-events impl={opsS}"]
-  let committed := (mscript.take (killat - 1)).contains .commit
+    outs := outs ++ [s!"DIVERGE {n} CR field=script model=one-transaction-one-commit impl={opsS}"]
+  let committed := (evs.take (killat - 1)).contains .commit
   let oldState := ((before.find? (fun p => p.1 == logS)).map (·.2.1)).getD "?"
   let newState := ((after.find? (fun p => p.1 == logS)).map (·.2.1)).getD "?"
   let newText : Option Bytes := (hexOfString newState).bind (fun b => (B.splitLast b).map (·.1))
